@@ -23,7 +23,9 @@ def one(name):
         caught = {}
         for pid in ALL:
             try:
-                rep, mod = evaluate(pid, "quick", tree)
+                # the seed's own property gets the full quick tier; the neighbours are run without the typestate products
+                # (A3 / A5 cost 30-50 s each) unless --full: "also reported by" is then a lower bound
+                rep, mod = evaluate(pid, "quick", tree, skip_a3=(pid != name.split("-")[0] and "--full" not in sys.argv))
                 if rep.violations:
                     caught[pid] = [v["key"][:160] for v in rep.violations]
             except AnalysisError as e:
@@ -34,7 +36,7 @@ def one(name):
 
 
 def main():
-    names = sys.argv[1:] or sorted(os.path.basename(os.path.dirname(p)) for p in glob.glob("/verif/seeded/C*-*/patch.diff"))
+    names = [a for a in sys.argv[1:] if not a.startswith("--")] or sorted(os.path.basename(os.path.dirname(p)) for p in glob.glob("/verif/seeded/C*-*/patch.diff"))
     bad = 0
     with ProcessPoolExecutor(max_workers=int(os.environ.get("VERIF_JOBS", "8"))) as ex:
         for name, caught in ex.map(one, names):
